@@ -836,6 +836,8 @@ def method_for(E, base, name):
             return I.Builtin("dict.get", get)
         if name == "items":
             return I.Builtin("dict.items", lambda E2: DictItems(base))
+        if name == "keys":
+            return I.Builtin("dict.keys", lambda E2: DictItems(base, keys_only=True))
         if name == "copy":
             def copy(E2):
                 d = DictObj(base.has, base.val, base.kkind, base.vkind, base.default, name=E2.fresh_name(base.name + ".copy"))
@@ -859,8 +861,9 @@ def method_for(E, base, name):
 
 
 class DictItems:
-    def __init__(self, d):
+    def __init__(self, d, keys_only=False):
         self.d = d
+        self.keys_only = keys_only          # `for k in d` / d.keys(): the loop variable is the key alone
 
 
 class _StrOf:
